@@ -43,6 +43,8 @@ type trConf struct {
 	// them; init: Lean statements in front of the body (declarations of the variables `stmts` assign)
 	stmts map[string][]string
 	init  []string
+	// elemTypes: Lean type of the elements a loop variable ranges over, when it is not a translatable basic type
+	elemTypes map[string]string
 }
 
 var trConfs = []trConf{
@@ -315,6 +317,41 @@ var trConfs = []trConf{
 			"return sdkerrors.Wrapf(types.ErrInvalid, \"txId %d not in unbatched index! Must be in a batch!\", txId)": ".failed err trace",
 			"return sdkerrors.Wrapf(types.ErrInvalid, \"tx with id %d was not fully removed from the pool, a duplicate must exist\", txId)": ".failed 4 trace",
 			"return sdkCtx.EventManager().EmitTypedEvent( &types.EventWithdrawCanceled{ Sender: sender.String(), TxId: fmt.Sprint(txId), BridgeContract: ci.SmartContractAddr, BridgeChainId: strconv.Itoa(int(ci.ChainID)), }, )": "if eventFails then .failed 10 trace else .ok trace"}},
+	{key: "x/consensus/keeper/consensus.Queue.AddSignature", lean: "addSignature", ret: "QueueOutcome",
+		prelude: "/-- what the queue does with a signature / an estimate: refuse (`failed 1` no such message, `failed 2` signing bytes unavailable, duplicate key,\n    duplicate validator, signature does not verify, not a message that takes estimates, already elected) or store it -/\ninductive QueueOutcome where\n  | failed (code : Nat) | dupKey | dupVal | badSig | noEstimation | alreadyElected | saveFailed | saved\nderiving DecidableEq, Repr",
+		params: []trParam{{"msgFound", "Bool"}, {"existing", "List (Nat × Nat)"}, {"newKey", "Nat"}, {"newVal", "Nat"}, {"bytesFail", "Bool"}, {"verifies", "Bool"}, {"saveFails", "Bool"}},
+		init:      []string{"let mut err : Nat := 0"},
+		elemTypes: map[string]string{"existingSigData": "(Nat × Nat)"},
+		atoms: map[string]string{"err != nil": "err != 0", "msg.GetSignData()": "existing",
+			"bytes.Equal(existingSigData.PublicKey, signData.PublicKey)": "existingSigData.1 == newKey",
+			"signData.ValAddress.Equals(existingSigData.ValAddress)":    "newVal == existingSigData.2",
+			"c.qo.VerifySignature(bytesToSign, signData.Signature, signData.PublicKey)": "verifies"},
+		skip: []string{"sdkCtx := sdk.UnwrapSDKContext(ctx)", "msg.AddSignData(signData)"},
+		stmts: map[string][]string{"msg, err := c.GetMsgByID(sdkCtx, msgID)": {"err := if msgFound then 0 else 1"},
+			"bytesToSign, err := msg.GetBytesToSign(c.qo.Cdc)": {"err := if bytesFail then 2 else 0"}},
+		returns: map[string]string{"return err": ".failed err",
+			"return ErrAlreadySignedWithKey.Format(msgID, c.qo.QueueTypeName, existingSigData.PublicKey)": ".dupKey",
+			"return ErrValidatorAlreadySigned.Format(signData.ValAddress)":                               ".dupVal",
+			"return ErrInvalidSignature": ".badSig", "return c.save(sdkCtx, msg)": "if saveFails then .saveFailed else .saved"}},
+	{key: "x/consensus/keeper/consensus.Queue.AddGasEstimate", lean: "addGasEstimate", ret: "QueueOutcome",
+		params: []trParam{{"msgFound", "Bool"}, {"requires", "Bool"}, {"estimators", "List Nat"}, {"newVal", "Nat"}, {"saveFails", "Bool"}},
+		init:   []string{"let mut err : Nat := 0"},
+		atoms: map[string]string{"err != nil": "err != 0", "msg.GetRequireGasEstimation()": "requires", "msg.GetGasEstimates()": "estimators",
+			"estimate.ValAddress.Equals(v.ValAddress)": "newVal == v"},
+		skip:  []string{"sdkCtx := sdk.UnwrapSDKContext(ctx)", "msg.AddGasEstimate(estimate)"},
+		stmts: map[string][]string{"msg, err := c.GetMsgByID(sdkCtx, msgID)": {"err := if msgFound then 0 else 1"}},
+		returns: map[string]string{"return err": ".failed err", "return fmt.Errorf(\"message %d does not require gas estimation\", msgID)": ".noEstimation",
+			"return fmt.Errorf(\"gas estimate already exists for validator %s\", v.ValAddress)": ".dupVal",
+			"return c.save(sdkCtx, msg)": "if saveFails then .saveFailed else .saved"}},
+	{key: "x/consensus/keeper/consensus.Queue.SetElectedGasEstimate", lean: "setElectedGasEstimate", ret: "QueueOutcome",
+		params: []trParam{{"msgFound", "Bool"}, {"requires", "Bool"}, {"elected", "UInt64"}, {"saveFails", "Bool"}},
+		init:   []string{"let mut err : Nat := 0"},
+		atoms:  map[string]string{"err != nil": "err != 0", "msg.GetRequireGasEstimation()": "requires", "msg.GetGasEstimate()": "elected"},
+		skip:   []string{"msg.SetElectedGasEstimate(estimate)"},
+		stmts:  map[string][]string{"msg, err := c.GetMsgByID(ctx, msgID)": {"err := if msgFound then 0 else 1"}},
+		returns: map[string]string{"return err": ".failed err", "return fmt.Errorf(\"message %d does not require gas estimation\", msgID)": ".noEstimation",
+			"return fmt.Errorf(\"gas estimate already exists for message %d\", msgID)": ".alreadyElected",
+			"return c.save(ctx, msg)": "if saveFails then .saveFailed else .saved"}},
 	{key: "x/metrix/keeper.calculateUptime", lean: "calculateUptimeGuard", ret: "Bool",
 		params: []trParam{{"window", "Int"}, {"missed", "Int"}},
 		// only the guard is arithmetic; the division goes through big.Float (modelled in C14's score arithmetic)
@@ -966,7 +1003,9 @@ func (c *trCtx) block(stmts []ast.Stmt, ind string, out *[]string) {
 				}
 				lp := &trLoop{name: fmt.Sprintf("%s_loop%d", c.conf.lean, c.nLoops), args: strings.Join(pnames, " "), muts: muts, rest: "rest__"}
 				elemT := "Nat"
-				if tv, ok := c.fi.pkg.TypesInfo.Types[s.X]; ok {
+				if et, ok := c.conf.elemTypes[v]; ok {
+					elemT = et
+				} else if tv, ok := c.fi.pkg.TypesInfo.Types[s.X]; ok {
 					if sl, ok := tv.Type.Underlying().(*types.Slice); ok {
 						if lt := c.leanType(sl.Elem()); lt != "" {
 							elemT = lt
